@@ -246,6 +246,7 @@ import "github.com/zalf-rpm/Hermes2Go/hermes/vsched"
 func verifConfig(g *GlobalVarsMain, cfg *Config, hp *HFilePath) {}
 func verifDayStart(g *GlobalVarsMain, zeit int)                 {}
 func verifAfterEvatra(g *GlobalVarsMain, zeit int, w *WaterSharedVars) {}
+func verifBeforeNitro(g *GlobalVarsMain, zeit, subd int)                {}
 func verifSubStep(g *GlobalVarsMain, zeit, subd int, steps, wdt float64, w *WaterSharedVars, n *NitroSharedVars) {
 }
 func verifDayEnd(g *GlobalVarsMain, zeit int, steps, wdt float64, c *CropSharedVars, w *WaterSharedVars) {
